@@ -355,9 +355,15 @@ package rules
 
 // only the tree handed in is changed
 //@ func (*repository).addRulesTo
-//@   props C06 C07
+//@   props C06 C07 C02
 //@   modifies Tree.*, elems(*)
 //@   ensures r.index == old(r.index) && r.knownRules == old(r.knownRules)
+// C02: "a less specific expression is tried only if backtracking is enabled for the failed one":
+// every route goes into the index together with its rule's own backtracking setting - on or off -
+// so that whatever flag the node had before (an inner node that only now gets a value) is replaced
+//@   callsites WithBacktracking 1
+//@   assert at call WithBacktracking#1@e239d8b9.1: callarg0 == allowsBt(rul)
+//@   assert at call Add#1@f59bfd81.1: len(callarg3) == 1
 
 //@ func (*repository).removeRulesFrom
 //@   props C06 C07
@@ -420,3 +426,23 @@ package rules
 //@   props C08
 //@   pure
 //@   defines normUnreserved(value)
+
+// ---- C18 / C06: the rule set processor between the providers and the repository ----
+// "removed or emptied sources are unloaded", "rules of deleted ... versions never match again": a
+// deletion reaches the repository whatever else the announcement carries (the file system, HTTP
+// endpoint and cloud blob providers announce it with the source alone - no version, no rules); a
+// creation / update reaches it with the rules the factory built, and only for a supported version.
+//@ func (*ruleSetProcessor).OnDeleted
+//@   props C18 C06
+//@   ensures drs.n == old(drs.n) + 1 && drs.arg1[old(drs.n)] == old(ruleSet.Source) && ret0 == drs.ret0[old(drs.n)]
+//@   ensures ars.n == old(ars.n) && urs.n == old(urs.n)
+
+//@ func (*ruleSetProcessor).OnCreated
+//@   props C18 C06
+//@   ensures ret0 == nil ==> ars.n == old(ars.n) + 1 && ars.ret0[old(ars.n)] == nil && old(ruleSet.Version) == config2.CurrentRuleSetVersion
+//@   ensures urs.n == old(urs.n) && drs.n == old(drs.n)
+
+//@ func (*ruleSetProcessor).OnUpdated
+//@   props C18 C06
+//@   ensures ret0 == nil ==> urs.n == old(urs.n) + 1 && urs.ret0[old(urs.n)] == nil && old(ruleSet.Version) == config2.CurrentRuleSetVersion
+//@   ensures ars.n == old(ars.n) && drs.n == old(drs.n)
